@@ -55,6 +55,13 @@ def main(argv):
         else:
             mod.run(chk)
     except common.MachineryError as e:
+        if chk.violations:
+            # A later stage broke down after violations had already been established (typically because
+            # the implementation's wrong answers pushed a driver outside its environment assumptions):
+            # the violations stand, the breakdown is recorded.
+            chk.notes.append("machinery failure after violations were found: %s" % str(e)[:500])
+            print("NOTE %s: a later stage could not run after violations were found: %s" % (pid, str(e)[:200]))
+            return chk.finish()
         print("MACHINERY-FAILURE %s: %s" % (pid, e))
         return 2
     except Exception:
